@@ -451,19 +451,27 @@ fn apply_content_edits_with_content(
         .with_context(|| format!("Failed to get metadata for {}", path.display()))?;
     let original_permissions = original_metadata.permissions();
 
-    {
-        let mut temp_file = File::create(&temp_path)
-            .with_context(|| format!("Failed to create temp file {}", temp_path.display()))?;
-        temp_file.write_all(modified.as_bytes())?;
-        temp_file.sync_all()?; // fsync
+    let replaced = (|| -> Result<()> {
+        {
+            let mut temp_file = File::create(&temp_path)
+                .with_context(|| format!("Failed to create temp file {}", temp_path.display()))?;
+            temp_file.write_all(modified.as_bytes())?;
+            temp_file.sync_all()?; // fsync
+        }
+
+        // Set the same permissions on the temp file before renaming
+        fs::set_permissions(&temp_path, original_permissions)?;
+
+        // Atomic rename
+        fs::rename(&temp_path, path)
+            .with_context(|| format!("Failed to atomically replace {}", path.display()))?;
+        Ok(())
+    })();
+    if let Err(e) = replaced {
+        // Do not leave the temporary file in the user's tree
+        let _ = fs::remove_file(&temp_path);
+        return Err(e);
     }
-
-    // Set the same permissions on the temp file before renaming
-    fs::set_permissions(&temp_path, original_permissions)?;
-
-    // Atomic rename
-    fs::rename(&temp_path, path)
-        .with_context(|| format!("Failed to atomically replace {}", path.display()))?;
 
     // Sync parent directory on Unix
     #[cfg(unix)]
